@@ -179,7 +179,8 @@ def run(ctx):
 def large_streams(ctx):
     """streams longer than the caching wrapper's buffer, read from a non-seekable source: a long series of
     small top-level items, and an indefinite-length container followed by more items (definite-length
-    containers longer than the buffer are the open finding F06 and are left to C11)"""
+    containers longer than the buffer are the open finding F06 and are left to C11); the same with untagged ANY at the
+    places where elements start"""
     import io
     from pyasn1.type import univ
     from pyasn1.codec.ber import encoder as benc
@@ -193,8 +194,24 @@ def large_streams(ctx):
     for i in range((buf + buf // 2) // 100 + r.randint(1, 30)):
         so.append(bytes([i % 200]) * r.randint(80, 120))
     scenarios.append(('indef-container+tail', benc.encode(so, defMode=False) + benc.encode(univ.Integer(7)) * 3, None))
+    # the same with untagged ANY where elements start: every top-level item read as ANY; records SEQUENCE { OCTET STRING, ANY }
+    # in indefinite form; CHOICE { ANY }; an indefinite SEQUENCE OF ANY longer than the buffer, then more items
+    from pyasn1.type import namedtype
+    scenarios.append(('series read as ANY', items, univ.Any()))
+    rec = univ.Sequence(componentType=namedtype.NamedTypes(namedtype.NamedType('o', univ.OctetString()), namedtype.NamedType('a', univ.Any())))
+    recs = b''
+    for i in range((2 * buf) // 120 + r.randint(3, 20)):
+        v = rec.clone(); v['o'] = bytes([i % 250]) * r.randint(40, 70); v['a'] = benc.encode(univ.OctetString(bytes([i % 249]) * r.randint(30, 50)))
+        recs += benc.encode(v, defMode=False)
+    scenarios.append(('indefinite records SEQUENCE {OCTET STRING, ANY}', recs, rec))
+    scenarios.append(('series read as CHOICE {ANY}', items, univ.Choice(componentType=namedtype.NamedTypes(namedtype.NamedType('a', univ.Any())))))
+    sa = univ.SequenceOf(componentType=univ.Any()); sa.clear()
+    for i in range((buf + buf // 2) // 100 + r.randint(1, 30)):
+        sa.append(benc.encode(univ.OctetString(bytes([i % 200]) * r.randint(80, 120))))
+    sa2 = univ.SequenceOf(componentType=univ.Any()); sa2.clear(); sa2.append(benc.encode(univ.Integer(7))); sa2.append(benc.encode(univ.Null('')))
+    scenarios.append(('indefinite SEQUENCE OF ANY+tail', benc.encode(sa, defMode=False) + benc.encode(sa2, defMode=False) * 3, univ.SequenceOf(componentType=univ.Any())))
     for name, data, spec in scenarios:
-        ref = streams.drive(I.DEC['BER'], _closed(data), [])
+        ref = streams.drive(I.DEC['BER'], _closed(data), [], spec=spec)
         ref_enc = [_reenc(e[1]) for e in ref[0] if not isinstance(e, str)]
         for kind in ('nonseekable', 'nonseekable-shortreads', 'seekable'):
             k = r.randint(2, 7)
@@ -202,7 +219,7 @@ def large_streams(ctx):
             sizes = [b - a for a, b in zip([0] + cuts, cuts + [len(data)])]
             sc = streams.schedule_from_sizes(data, sizes, polls={0} if r.random() < .5 else ())
             s = streams.Growing(seekable=(kind == 'seekable'), max_read=(r.choice([1, 3, 1000]) if 'short' in kind else None))
-            ev, out = streams.drive(I.DEC['BER'], s, sc)
+            ev, out = streams.drive(I.DEC['BER'], s, sc, spec=spec)
             got = [_reenc(e[1]) for e in ev if not isinstance(e, str)]
             ctx.case(('large', name, kind, len(data), tuple(sizes)), True)
             ctx.stats['large:%s/%s' % (name, kind)] += 1
